@@ -744,6 +744,10 @@ class HttpRequestParser(HttpParser[RawRequestMessage]):
         if version_o == HttpVersion11 and hdrs.HOST not in headers:
             raise BadHttpMessage("Missing 'Host' header in request.")
 
+        # https://www.rfc-editor.org/rfc/rfc9112#section-6.1-16
+        if version_o <= HttpVersion10 and hdrs.TRANSFER_ENCODING in headers:
+            raise BadHttpMessage("Transfer-Encoding is not allowed in an HTTP/1.0 request")
+
         if close is None:  # then the headers weren't set in the request
             if version_o <= HttpVersion10:  # HTTP 1.0 must asks to not close
                 close = True
